@@ -27,14 +27,16 @@ theorem syncRequest_wf (script : Script) (id : Json) (m : String) : WF (syncRequ
   unfold syncRequest
   split <;> simp [WF, errResp, httpErrorBuildsError, versionForced]
 
-theorem signAndSend_wf (w : Wallet) (script : Script) (id : Json) (fwds : List Fwd) (fromRaw p0 : Json) (n : Option Nat) :
-    WF (signAndSend w script id fwds fromRaw p0 n).2.1 := by
+theorem signAndSend_wf (w : Wallet) (script : Script) (id : Json) (fwds : List Fwd) (fromRaw p0 : Json) (n : Option Nat)
+    (tx : Model.Tx.Tx) : WF (signAndSend w script id fwds fromRaw p0 n tx).2.1 := by
   unfold signAndSend
   split
   · exact errResp_wf _ _
   · split
     · exact errResp_wf _ _
-    · exact syncRequest_wf _ _ _
+    · split
+      · exact syncRequest_wf _ _ _
+      · exact errResp_wf _ _
 
 theorem sendTransaction_wf (mem : Members) (w : Wallet) (script : Script) (id : Json) (params : List Json) :
     WF (sendTransaction mem w script id params).2.1 := by
@@ -47,7 +49,7 @@ theorem sendTransaction_wf (mem : Members) (w : Wallet) (script : Script) (id : 
     · split
       · simp only [badFromIsError, if_true]; exact errResp_wf _ _
       · exact errResp_wf _ _
-      · exact signAndSend_wf _ _ _ _ _ _ _
+      · exact signAndSend_wf _ _ _ _ _ _ _ _
 
 theorem processRPC_wf (mem : Members) (w : Wallet) (script : Script) (req : Option Req) :
     WF (processRPC mem w script req).2.1 := by
